@@ -4,6 +4,7 @@ CONSTANTS
   Catalogue = {}
   MaxOps = 1000000
   DeleteStopsAt = {}
+  IndexStopsAt = {}
   ReuseIds = FALSE
 POSTCONDITION Accepted
 CHECK_DEADLOCK FALSE
